@@ -168,7 +168,9 @@ func init() {
 		}
 		return p
 	}
-	onceFlds := func(r *Rand) []trFld { return []trFld{{"done", tvBool(r.Chance(1, 3))}, {"v", tvInt(int64(r.Intn(9)))}} }
+	onceFlds := func(r *Rand) []trFld {
+		return []trFld{{"done", tvBool(r.Chance(1, 3))}, {"v", tvInt(int64(r.Intn(9)))}}
+	}
 	onceOut := func(p *probeOnceT) []trFld { return []trFld{{"done", tvBool(true)}, {"v", tvInt(int64(p.v))}} }
 	trFns = append(trFns,
 		trFn{table: "TransProbe", name: "probeSet",
